@@ -27,7 +27,8 @@ REPO = Path(os.environ.get("VERIF_REPO", "/repo"))
 DRIVER = LEAN / ".lake" / "build" / "bin" / "nmdriver"
 TRDRIVER = LEAN / ".lake" / "build" / "bin" / "trdriver"  # definitions regenerated from the Python source (py2lean)
 # request prefixes the translated-source driver answers (lean/TrDriver.lean)
-TR_OPS = ("a1 colname ", "a1 cell ", "a1 range ", "a1 parse ", "a1 coloff ", "items getitem ", "numfmt fracparts ", "numfmt twos ", "addr iterrows ", "addr itercols ")
+TR_OPS = ("a1 colname ", "a1 cell ", "a1 range ", "a1 parse ", "a1 coloff ", "a1 colidx ", "items getitem ", "numfmt fracparts ", "numfmt twos ", "addr iterrows ", "addr itercols ",
+          "datefmt fmt ", "datefmt expand ", "dur units ", "d128 pack ", "cache calls ")
 ALLOWED_AXIOMS = {"propext", "Classical.choice", "Quot.sound"}
 FORBIDDEN = re.compile(
     r"\b(sorry|admit|native_decide|bv_decide|implemented_by|unsafe)\b|^\s*axiom\s|maxHeartbeats\s+0\b"
@@ -70,7 +71,7 @@ def run_model(lines: list[str], timeout: int = 3600, driver: Path | None = None)
         out.pop()
     if len(out) != len(lines):
         raise RuntimeError(f"nmdriver returned {len(out)} lines for {len(lines)} requests")
-    return out
+    return [o.rstrip("\r") for o in out]
 
 
 class Ctx:
@@ -149,6 +150,61 @@ class Ctx:
     def sample(self, obj):
         if len(self.samples) < 40:
             self.samples.append(obj)
+
+
+def translated_only_stream(ctx: "Ctx", name: str, requests: list[str], impl_out: list[str], exhaustive: bool = False):
+    """requests that only the translated-source driver answers (the model driver has no such op): real code vs the
+    definitions py2lean regenerated from the source."""
+    sub = ctx.subspaces.setdefault(name, {"cases": 0, "exhaustive": exhaustive, "disagreements": 0})
+    sub["cases"] += len(requests)
+    ctx.evaluations += len(requests)
+    for r, o in list(zip(requests, impl_out))[:2]:
+        ctx.samples.append({"subspace": name, "request": r, "impl": o})
+    if not ctx.translated_available:
+        sub["skipped_model"] = True
+        return
+    tr = run_model(requests, driver=TRDRIVER)
+    sub["translated_source_cases"] = sub.get("translated_source_cases", 0) + len(requests)
+    for r, a, b in zip(requests, impl_out, tr):
+        if a != b:
+            sub["disagreements"] += 1
+            if len(ctx.disagreements) < 50:
+                ctx.disagreements.append({"subspace": name + " [definitions translated from the source]", "request": r,
+                                          "impl": a, "model": b})
+
+
+def python_operator_stream(ctx: "Ctx"):
+    """The meaning Py/Trans.lean gives to the integer operators the translator emits (& | << >> // % int(a / b)
+    int(ceil(a / c)) range(a, b, c)), compared with CPython on signed operands: part of the translator's trusted base,
+    exercised on every run of a check that uses translated definitions."""
+    import math
+    rng = ctx.rng
+    vals = [0, 1, -1, 2, -2, 5, -5, 12, 127, 128, -128, 255, 256, 65535, 65536, -65536, 2**31, 2**32 - 1, 2**32, -(2**32), 2**53 - 1]
+    vals += [rng.randrange(-2**40, 2**40) for _ in range(60)] + [rng.randrange(-300, 300) for _ in range(40)]
+    req, out = [], []
+
+    def res(f):
+        try:
+            return f"ok {f()}"
+        except Exception as e:  # noqa: BLE001
+            return "err " + exc_name(e)
+    for a in vals:
+        for b in rng.sample(vals, 12) + [0, 1, -1, 7, 16]:
+            req += [f"py and {a} {b}", f"py or {a} {b}", f"py floordiv {a} {b}", f"py mod {a} {b}"]
+            out += [res(lambda: a & b), res(lambda: a | b), res(lambda: a // b), res(lambda: a % b)]
+            if abs(a) < 2**50 and 0 < abs(b) < 2**20:
+                req += [f"py truedivtrunc {a} {b}", f"py ceildiv {a} {b}"]
+                out += [res(lambda: int(a / b)), res(lambda: int(math.ceil(a / float(b))))]
+        for k in (0, 1, 7, 8, 16, 33, -1):
+            req += [f"py shl {a} {k}", f"py shr {a} {k}"]
+            out += [res(lambda: a << k), res(lambda: a >> k)]
+    for a in range(-3, 15, 4):
+        for b in range(-3, 15, 3):
+            for c in (-3, -1, 0, 1, 2, 5):
+                req.append(f"py range3 {a} {b} {c}")
+                out.append(res(lambda: " ".join(map(str, range(a, b, c)))).rstrip())
+    out = [o if o != "ok" else "ok " for o in out]
+    translated_only_stream(ctx, "integer operators of Py/Trans.lean vs CPython on signed operands (translator's trusted base)", req, out)
 
 
 def run_parallel(ctx: "Ctx", worker, tasks: list, procs: int | None = None) -> list:
